@@ -98,8 +98,10 @@ def schedule(draw: Any, *, max_callers: int = 8, faults: bool = True, big_queue:
     if faults and draw(st.integers(0, 2)) == 0:
         fl = []
         for _ in range(draw(st.integers(1, 3))):
-            k = draw(st.sampled_from(("lost", "lost-exc", "pause", "resume", "write-fails", "write-fails")))
-            if k == "write-fails":
+            k = draw(st.sampled_from(("lost", "lost-exc", "pause", "resume", "write-fails", "write-fails", "lost-after-done")))
+            if k == "lost-after-done":
+                fl.append({"kind": k, "caller": draw(st.integers(0, n - 1)), "hops": draw(st.integers(0, 4))})
+            elif k == "write-fails":
                 fl.append({"kind": k, "write": draw(st.integers(1, 8))})
             else:
                 fl.append({"kind": k, "t": draw(st.sampled_from(CALL_TIMES)) + draw(st.sampled_from(DELAYS))})
@@ -124,7 +126,7 @@ def classify(case: dict) -> list[str]:
     tos = {c["timeout"] for c in case["callers"]}
     if co or tos & {0.5, 1.0, 1.5, 2.0, 3.5, 4.0, 7.5}:
         out.append("sched:timer-coincidence")
-    if any(f["kind"] in ("lost", "lost-exc", "write-fails") for f in case.get("faults", [])):
+    if any(f["kind"] in ("lost", "lost-exc", "write-fails", "lost-after-done") for f in case.get("faults", [])):
         out.append("sched:disconnect-or-write-failure")
     if any(f["kind"] in ("pause", "resume") for f in case.get("faults", [])):
         out.append("sched:pause")
